@@ -474,6 +474,43 @@ pub fn gen_c11(sh: &mut Shards, o: &Opts) -> serde_json::Value {
             pixels += (w * h) as u64;
         }
     }
+    // ROUNDING BOUNDARIES: pixels whose scaled luma / chroma lies within a few f32 steps of a code boundary k + 0.5, walked
+    // float by float (the blue channel moves in ulps: the luma then passes through every representable value next to the
+    // boundary, including the largest float below 0.5 where `(v + 0.5) as u16` and `v.round()` part ways).  Two rounding
+    // sites that agree everywhere else - a block kernel and the row tail, a wide path and the 1x1 path - differ exactly
+    // here, and the position of a pixel in its row then decides its code.  Widths 27 (three blocks of 8 + tail) and 8.
+    for n_bits in 8u8..=16 {
+        for full in [true, false] {
+            let c = Cfg { mc: MC_STD[rng.below(7) as usize], tc: TC_SUP[rng.below(14) as usize], cp: CP_SUP[rng.below(11) as usize], full, n: n_bits, ssx: 0, ssy: 0 };
+            let kk = f64::from(1u32 << (n_bits - 8));
+            let (scale, off) = if full { (f64::from((1u32 << n_bits) - 1), 0.0) } else { (219.0 * kk, 16.0 * kk) };
+            let mut px: Px = Vec::new();
+            for code in [off, off + 1.0, off + 2.0, off + 7.0] {
+                let t = ((code + 0.5 - off) / scale) as f32;
+                for j in -40i32..=40 {
+                    let b = f32::from_bits((t.to_bits() as i32 + j) as u32);
+                    px.push([t, t, b]);
+                    if j.abs() <= 8 {
+                        px.push([b, b, b]);
+                        px.push([b, t, t]);
+                    }
+                }
+            }
+            for w in [27usize, 8] {
+                let h = px.len() / w;
+                let cut = &px[..w * h];
+                for call in ["RgbToYuv", "LinToYuv"] {
+                    let cc = if call == "LinToYuv" { Cfg { tc: 8, cp: 1, ..c } } else { c };
+                    to_yuv_event::<u16>(sh, call, &cc, 16, w, h, cut);
+                    if n_bits == 8 {
+                        to_yuv_event::<u8>(sh, call, &cc, 8, w, h, cut);
+                    }
+                    n += 1;
+                    pixels += (w * h) as u64;
+                }
+            }
+        }
+    }
     // composite conversions against the chain of single stages they are specified as (Yuvxyb.tla: Then(stage, stage)):
     // both outcomes and both results are logged; TLC compares them bit for bit.  Not one of the listed properties - a
     // difference is reported as SPEC-DRIFT, never as a violation.
